@@ -68,7 +68,7 @@ Closed == Expect.e.k \notin {"brk", "unsup"}
 
 \* direct sub-terms of a syntax tree
 SubTerms(t) ==
-  CASE t.k \in {"id", "recurse", "num", "break", "var"} -> <<>>
+  CASE t.k \in {"id", "recurse", "num", "bignum", "break", "var"} -> <<>>
     [] t.k = "str" -> [i \in 1..Len(t.parts) |-> IF t.parts[i].p = "f" THEN t.parts[i].f ELSE TId]
     [] t.k = "arr" -> IF "f" \in DOMAIN t THEN << t.f >> ELSE <<>>
     [] t.k = "obj" -> FlatSeq([i \in 1..Len(t.es) |-> << t.es[i].key, t.es[i].val >>])
